@@ -218,7 +218,7 @@ def hyp_run(ctx, check, strategy, body, max_examples, shrink=True, stateful_step
     @given(strategy)
     def test(case):
         if ctx.over_budget():
-            raise BudgetExhausted()
+            return          # budget hit: remaining examples are no-ops (inconclusive, not failures)
         last['case'] = case
         try:
             body(case)
